@@ -81,7 +81,13 @@ func (n *verifBootNode) Stop() {
 
 func verifInstallBootHook() {
 	verifBootKinds, verifBootHad, verifBootNodes = nil, nil, nil
-	verifrt.Hook("raftnode", func(kind string, cfg *etcdRaft.Config, npeers int) etcdRaft.Node {
+	verifrt.Hook("raftnode", verifNewBootNode)
+}
+
+// verifNewBootNode: a one-member raft group over the given store (see the
+// comment at the top of this file).
+func verifNewBootNode(kind string, cfg *etcdRaft.Config, npeers int) etcdRaft.Node {
+	{
 		n := &verifBootNode{readyc: make(chan etcdRaft.Ready, 32)}
 		st := cfg.Storage
 		first, _ := st.FirstIndex()
@@ -107,7 +113,7 @@ func verifInstallBootHook() {
 			}
 		}
 		return n
-	})
+	}
 }
 
 func VerifC14Restart() {
